@@ -518,6 +518,10 @@ func (s *Server) handleRequest(ctx context.Context, req *Request) (*response, ht
 
 	calledMethod, found := s.methods[req.Method]
 	if !found {
+		if req.ID == nil {
+			// notification: the server must not reply, not even with an error
+			return nil, header, nil
+		}
 		res.Error = Err(MethodNotFound, nil)
 		s.logger.Trace(
 			"Method not found in request",
@@ -530,6 +534,11 @@ func (s *Server) handleRequest(ctx context.Context, req *Request) (*response, ht
 	s.listener.OnNewRequest(req.Method)
 	args, err := s.buildArguments(ctx, req.Params, calledMethod)
 	if err != nil {
+		if req.ID == nil {
+			// notification: the server must not reply, not even with an error
+			s.logger.Trace("Error building arguments for notification", zap.Error(err))
+			return nil, header, nil
+		}
 		res.Error = Err(InvalidParams, err.Error())
 		s.logger.Trace("Error building arguments for RPC call", zap.Error(err))
 		return res, header, nil
